@@ -63,6 +63,9 @@ def _programs(tier):
       P.append(dict(model=mid, limit=lim, layer_indexes=None, tune_filters="none"))
   P.append(dict(model="conv_dense", limit=lim_class, layer_indexes=[1, 2], tune_filters="none"))
   P.append(dict(model="conv_dense", limit=lim_class, layer_indexes=[3], tune_filters="none"))
+  # a stand-alone Activation (in the limits) OUTSIDE the selected layer indexes stays an Activation
+  P.append(dict(model="dense_act_dense", limit=lim_class, layer_indexes=[1, 2], tune_filters="none"))
+  P.append(dict(model="dense_act_dense", limit=lim_class, layer_indexes=[1, 2, 4], tune_filters="none"))
   # filter tuning: only the last Dense layer is tunable (exceptions exclude the others): under tf_keras 2.21 a scaled
   # layer that feeds another weight layer cannot be rebuilt from JSON (the consumer's build_config pins its old
   # input width) - an environment limitation, established on the stock layers as well
@@ -425,9 +428,10 @@ def run_b(case):
           what, case["delta_p"], case["delta_n"], case["rate"]), "detail": {"case": case}})
   ff = ForgivingFactor(case["delta_p"], case["delta_n"], case["rate"])
   evals = 0
-  for refsize in (64.0, 1000.0, 2720.0, 1e6):
+  # sizes are bit counts: 1.3e8 and 2^31 bits are 16 MB / 256 MB models; neighbouring trial sizes differ by single bits
+  for refsize in (64.0, 1000.0, 2720.0, 1e6, 134316048.0, 2.0 ** 31):
     ratios = sorted(set([2.0 ** k for k in np.arange(-6, 6.01, 0.5)]))
-    trials = sorted(set([refsize * r for r in ratios] + [refsize - 1, refsize + 1, refsize]))
+    trials = sorted(set([refsize * r for r in ratios] + [refsize - 4, refsize - 1, refsize + 1, refsize + 4, refsize]))
     ff.reference_size = refsize
     prev = None
     for t in trials:
